@@ -20,6 +20,11 @@
  *   encode_decode_bounded   r_n r_pre r_path r_in
  *   char_roundtrip          r_v r_path
  *   query_bounded           r_n r_q              (r_q: the query bytes, little endian in one 64-bit word)
+ *   query_next_param        -                     (unit query_next_param: the query bytes are contents of an is_fresh object and
+ *                                                  cannot be recovered from the trace; instead every query string over
+ *                                                  {a,=,&} of length 0..7 is iterated with the real code and compared with the
+ *                                                  reference splitter, stopping at the first difference - a native check of
+ *                                                  the same property clause, NOT the verifier's input)
  *   parse_text              r_tn r_tw0 r_tw1 r_tw2   (the text, little endian in three 64-bit words; absent: built-in corpus)
  *   parse_authority_exact   r_n + the logged delimiter searches r_mcn r_mcc<k> r_mcr<k> (character, index found), r_pu_ok r_pu_val
  *   parse_corpus            -                     (units parse_scheme/_path/_query/_authority, init_*: the text bytes of their
@@ -401,6 +406,7 @@ static void parse_corpus(void) {
 }
 
 /* ------------------------------------------------------------------ query strings: iterator and list form against a reference splitter */
+static int s_quiet;
 static void check_query(const uint8_t *q, size_t n) {
     size_t ko[64], kl[64], vo[64], vl[64], m = 0;
     if (n > 60) exit(3);
@@ -419,7 +425,7 @@ static void check_query(const uint8_t *q, size_t n) {
     struct aws_uri_param p;
     memset(&p, 0, sizeof p);
     size_t k = 0;
-    printf("query "); show(q, n); printf(": reference has %zu pair(s)\n", m);
+    if (!s_quiet) { printf("query "); show(q, n); printf(": reference has %zu pair(s)\n", m); }
     while (aws_query_string_next_param(qc, &p)) {
         if (k >= m) { FAIL("the iterator yields more than the %zu non-empty piece(s)", m); break; }
         if (p.key.ptr != buf + ko[k] || p.key.len != kl[k] || p.value.ptr != buf + vo[k] || p.value.len != vl[k]) {
@@ -535,6 +541,23 @@ int main(int argc, char **argv) {
         uint8_t *q = from_word(get("r_q", 0x612661ull /* "a&a" */), n);
         check_query(q, n);
         if (!has("r_q")) { check_query((const uint8_t *)"x&y&zz", 6); check_query((const uint8_t *)"flag&b=2", 8); check_query((const uint8_t *)"a=1&&b==&=c&", 12); }
+    } else if (!strcmp(op, "query_next_param")) {
+        static const uint8_t alpha[3] = {'a', '=', '&'};
+        size_t cases = 0;
+        s_quiet = 1;
+        for (size_t n = 0; n <= 7 && !s_fail; ++n) {
+            size_t total = 1;
+            for (size_t i = 0; i < n; ++i) total *= 3;
+            for (size_t c = 0; c < total && !s_fail; ++c) {
+                uint8_t q[8];
+                size_t x = c;
+                for (size_t i = 0; i < n; ++i) { q[i] = alpha[x % 3]; x /= 3; }
+                check_query(q, n);
+                cases++;
+                if (s_fail) { printf("  (query string: "); show(q, n); printf(")\n"); }
+            }
+        }
+        printf("%zu query strings over {a,=,&} of length 0..7 iterated\n", cases);
     } else if (!strcmp(op, "parse_text")) {
         if (!has("r_tn")) parse_corpus();
         else {
